@@ -65,7 +65,10 @@ func VerifC20Dispatch() {
 	} else {
 		nd.Reach("updater")
 		called := 0
-		ni.AddUpdater(regTable, e1, func(item, attrs map[string]*types.Item) { called++; item["touched"] = &types.Item{BOOL: &[]bool{true}[0]} })
+		ni.AddUpdater(regTable, e1, func(item, attrs map[string]*types.Item) {
+			called++
+			item["touched"] = &types.Item{BOOL: &[]bool{true}[0]}
+		})
 		item := map[string]*types.Item{}
 		err := ni.Update(UpdateInput{TableName: reqTable, Expression: e2, Item: item})
 		want := same && regTable == reqTable
